@@ -268,6 +268,9 @@ type Association struct {
 	willSendShutdownComplete bool
 	shutdownCompletePending  bool
 
+	// what ended readLoop (set before readLoopCloseCh is closed)
+	readLoopErr error
+
 	willSendAbort      bool
 	willSendAbortCause errorCause
 	abortSentOnce      sync.Once
@@ -468,8 +471,21 @@ func ServerWithOptions(opts ...ServerOption) (*Association, error) {
 
 		return assoc, nil
 	case <-assoc.readLoopCloseCh:
-		return nil, ErrAssociationClosedBeforeConn
+		return nil, assoc.closedBeforeConnError()
 	}
+}
+
+// closedBeforeConnError reports that the association ended during the handshake,
+// together with what ended it (the cause of a peer's ABORT, a transport error).
+func (a *Association) closedBeforeConnError() error {
+	a.lock.RLock()
+	defer a.lock.RUnlock()
+
+	if a.readLoopErr == nil {
+		return ErrAssociationClosedBeforeConn
+	}
+
+	return fmt.Errorf("%w: %w", ErrAssociationClosedBeforeConn, a.readLoopErr)
 }
 
 // Client opens a SCTP stream over a conn.
@@ -536,7 +552,7 @@ func createClientWithOptionsWithContext(ctx context.Context, opts ...ClientOptio
 
 		return assoc, nil
 	case <-assoc.readLoopCloseCh:
-		return nil, ErrAssociationClosedBeforeConn
+		return nil, assoc.closedBeforeConnError()
 	}
 }
 
@@ -1181,6 +1197,7 @@ func (a *Association) readLoop() {
 			a.unregisterStream(s, closeErr)
 		}
 		a.unblockPendingWrites()
+		a.readLoopErr = closeErr
 		a.lock.Unlock()
 		close(a.acceptCh)
 		close(a.readLoopCloseCh)
